@@ -420,7 +420,8 @@ Definition multi_rephase (s : state) (i : nat) (ps : list phase) : state * optio
     let '(s4, vs) :=
       fold_left (fun acc pn =>
                    let '(st, kept) := acc in
-                   match index_of (fst pn) ps with
+                   (* a view that was itself made multi-phase (its class is no longer Stream) is dropped as well *)
+                   match (if is_multi st (snd pn) then None else index_of (fst pn) ps) with
                    | Some k => let (st1, vr) := new_imol st (mkimol false (nth k rs O) (fst pn) []) in
                                let v := obj_of st1 (snd pn) in
                                (wr_obj st1 (snd pn) (mkobj vr (o_tc v) (o_views v) (o_hasv v)), kept ++ [pn])
@@ -608,7 +609,13 @@ Definition step_valid (w : world) (o : op) : world * obs :=
   | OProxy i => (mkw (st_proxy s i) (new_cobj_proxy c i), BIdx (length (objs s)))
   | OFlowProxy i => (mkw (st_flow_proxy s i) (new_cobj_fresh c (c_pkg (cobj_of c i))), BIdx (length (objs s)))
   | OCopy i => (mkw (st_copy s i) (new_cobj_fresh c (c_pkg (cobj_of c i))), BIdx (length (objs s)))
-  | OLink i j fl ph tp => lift w (link_with s i j fl ph tp)
+  | OLink i j fl ph tp =>
+      match link_with s i j fl ph tp with
+      | (s1, Some e) => (mkw s1 c, BErr e)
+      | (s1, None) =>
+          (* `if TP: self.reset_cache()` at the end of link_with (class-dispatched, like every reset_cache call site) *)
+          if tp then (mkw (ensure_views s1 i) (reset_cache None s1 c i), BOk) else (mkw s1 c, BOk)
+      end
   | OUnlink i =>
       match unlink s i with
       | (s1, Some e) => (mkw s1 c, BErr e)
